@@ -52,6 +52,13 @@ def run(ctx) -> None:
 
     ctx.reuse("C05.mix-args", c02.ctor)
     ctx.reuse("C05.mix-args", c02.alias)
+    # conservation: what is booked is what was asked for - a split volume adds up to the request, an overfull well is refused
+    # (not clipped while the fractions are mixed with the full amount)
+    from . import c06
+
+    ctx.reuse("C05.mix-args", c06.partition_volume)
+    for kind_ in ("add", "remove"):
+        ctx.reuse("C05.mix-args", c02.guard, kind_)
     ctx.guard("C05.default-name", default_name)
     ctx.guard("C05.default-name", trough_names)
     ctx.guard("C05.default-name", _name_buffers)
